@@ -43,6 +43,12 @@ def gen_cases(tier, rng):
             c["as_operators"] = bool(rng.random() < 0.5)
             c["degenerate"] = bool(rng.random() < 0.2)
             c["nops"] = int(rng.integers(1, 4))
+            # a Hermitian Hamiltonian with complex couplings (e.g. in a magnetic field): its eigenbasis is reached by a unitary matrix
+            c["complex_h"] = bool(i % 6 == 4)
+            if c["complex_h"]:
+                c["rwa"] = False
+                c["as_operators"] = False
+                c["dim"] = max(dim, 3)
         else:
             t = tensors.gen_case(rng, str(rng.choice(["stR", "stR-ops", "stR-sec", "stF", "cRF"])), tier, nmax=3)
             c["tensor"] = t
@@ -71,6 +77,9 @@ def run_case(case, ctx):
                 dim = case["dim"]
                 A = rng.normal(size=(dim, dim))
                 Hd = (A + A.T) / 2
+                if case.get("complex_h"):
+                    B_ = rng.normal(size=(dim, dim))
+                    Hd = Hd + 1j * (B_ - B_.T) / 2
                 if case["degenerate"] and dim >= 3:
                     Hd[2, 2] = Hd[1, 1]
                 split = int(rng.integers(1, dim))
@@ -95,7 +104,7 @@ def run_case(case, ctx):
                 R = qm.LindbladForm(ham, sbi, as_operators=case["as_operators"])
                 Heff = Hd.copy()
                 if case["rwa"]:
-                    e = numpy.diag(Hd)
+                    e = numpy.diag(Hd).real
                     blk = numpy.zeros(dim)
                     blk[:split] = numpy.mean(e[:split])
                     blk[split:] = numpy.mean(e[split:])
@@ -124,7 +133,7 @@ def run_case(case, ctx):
     Nt = case["Nt"]
     dt = float("%.5g" % (case["x"] * dense / nL))
     t = qr.TimeAxis(0.0, Nt, dt)
-    det = {"class": case["cls"], "dim": dim, "Nt": Nt, "dense": dense, "x": case["x"], "pdeph": case["pdeph"]}
+    det = {"class": case["cls"], "dim": dim, "Nt": Nt, "dense": dense, "x": case["x"], "pdeph": case["pdeph"], "complex_h": bool(case.get("complex_h"))}
 
     def make(mode="all", dn=dense):
         eU = qr.EvolutionSuperOperator(time=t, ham=ham, relt=R, pdeph=pd, mode=mode)
@@ -208,9 +217,9 @@ def run_case(case, ctx):
     with ctx.lib("apply inside eigenbasis_of(H)", mechanism=None):
         with contextlib.redirect_stdout(out):
             r_in2 = qr.ReducedDensityMatrix(data=rho0.copy())
-            hctx = qr.Hamiltonian(data=numpy.array(ham._data, dtype=float).copy())
+            hctx = qr.Hamiltonian(data=numpy.array(ham._data).copy())
             with qr.eigenbasis_of(hctx):
-                S = numpy.array(Manager().basis_transformations[-1], dtype=float)
+                S = numpy.array(Manager().basis_transformations[-1])
                 if how_in == "'all'":
                     gi, ref_in = numpy.array(eU.apply("all", r_in2).data), ev
                 elif how_in == "own TimeAxis":
@@ -222,10 +231,10 @@ def run_case(case, ctx):
                 else:
                     k_at = int(rng.integers(Nt))
                     ua = numpy.array(eU.at(float(t.data[k_at])).data)
-                    gi = numpy.einsum("ia,jb,abcd,kc,ld->ijkl", S, S, ua, S, S)[None]
+                    gi = numpy.einsum("ia,jb,abcd,kc,ld->ijkl", S, S.conj(), ua, S.conj(), S)[None]
                     ref_in = None
     if ref_in is not None:
-        back = numpy.einsum("ia,tab,jb->tij", S, gi, S)
+        back = numpy.einsum("ia,tab,jb->tij", S, gi, S.conj())
         ctx.check("apply==propagate", float(numpy.max(numpy.abs(back - ref_in))), tol * 4, dict(det, how=how_in, where="inside eigenbasis_of(H), superoperator not read there before"))
     else:
         ctx.check("apply==propagate", float(numpy.max(numpy.abs(gi[0] - U[k_at]))), 64 * EPS * dim * dim * Mn, dict(det, how="at(t) inside eigenbasis_of(H), transformed back", index=k_at))
@@ -240,7 +249,7 @@ def run_case(case, ctx):
             U_ctx = None
             if not case["pdeph"]:
                 # (pure dephasing is documented as intentionally not basis managed: it belongs to the basis it was defined in)
-                hctx2 = qr.Hamiltonian(data=numpy.array(ham._data, dtype=float).copy())
+                hctx2 = qr.Hamiltonian(data=numpy.array(ham._data).copy())
                 with qr.eigenbasis_of(hctx2):
                     eU.calculate(show_progress=False)
                 U_ctx = numpy.array(eU.data)
